@@ -48,7 +48,7 @@ def graph_faults(toks):
     free = [d for d in range(1, 10) if d not in used]
     # 1. dangling ring marker
     for k, (i, j) in enumerate(pos):
-        for style, rid in (('d', free[0]), ('p', free[-1] + 10)):
+        for style, rid in (('d', free[0]), ('p', free[-1] + 10)) + ((('d', 0), ('p', 0)) if 0 not in used else ()):   # ring index 0 is a valid index
             # a digit marker may not directly follow a %-marker (it would be read as part of it)
             if style == 'd' and j > 0 and toks[j - 1][0] == 'r' and toks[j - 1][2] == 'p':
                 continue
@@ -65,10 +65,11 @@ def graph_faults(toks):
             ja, jb = pos[a][1], pos[b][1]
             if toks[ja - 1][0] == 'r' and toks[ja - 1][2] == 'p' or toks[jb - 1][0] == 'r' and toks[jb - 1][2] == 'p':
                 continue
-            new = list(toks)
-            new[jb:jb] = [('r', free[0], 'd')]
-            new[ja:ja] = [('r', free[0], 'd')]
-            yield 'duplicate-edge', tuple(new), SyntaxError
+            for rid in (free[0],) + ((0,) if 0 not in used else ()):
+                new = list(toks)
+                new[jb:jb] = [('r', rid, 'd')]
+                new[ja:ja] = [('r', rid, 'd')]
+                yield 'duplicate-edge', tuple(new), SyntaxError
     # 4. annotation faults
     for k, (i, j) in enumerate(pos):
         if toks[i][2]:
